@@ -465,14 +465,21 @@ impl<'a> Lexer<'a> {
     /// Gets the current span of the lexer.
     pub fn span(&self) -> SourceSpan {
         let mut span = self.0.span();
-        if span.end == self.0.source().len() {
+        let source = self.0.source();
+        if span.end == source.len() {
             // Currently miette silently fails to display a label
             // if the span is at the end of the source; this means
             // we can't properly show the "end of input" span.
-            // For now, have the span point at the last byte in the source.
+            // For now, have the span point at the last character in the source
+            // (an empty span if the source is empty).
             // See: https://github.com/zkat/miette/issues/219
-            span.start = span.start.saturating_sub(1);
-            span.end = span.start + 1;
+            let mut start = span.start.saturating_sub(1);
+            while !source.is_char_boundary(start) {
+                start -= 1;
+            }
+
+            span.start = start;
+            span.end = start + source[start..].chars().next().map_or(0, char::len_utf8);
         }
 
         to_source_span(span)
